@@ -89,3 +89,48 @@ def iftSens (H M : Mat) : Option Mat :=
   | some cols => some (transpose cols)
 
 end PV.Gls
+
+namespace PV.Gls
+
+/-! ### assembling the linear problem of a (combined) fit: `least_squares` stacks the data sets in the order
+    `key_ls = sorted(keys)` whatever the order of the dictionaries, and appends one row per Gaussian prior -/
+
+/-- the points of one key of a combined fit: design rows (basis functions at the abscissas), values, errors -/
+structure Block where
+  key : String
+  rows : Mat
+  y : List Rat
+  dy : List Rat
+  deriving Repr
+
+/-- diagonal matrix -/
+def diag (d : List Rat) : Mat :=
+  (List.zip (List.range d.length) d).map (fun (i, v) => (List.range d.length).map (fun j => if i == j then v else 0))
+
+/-- insertion sort by key (stable), as `sorted()` on the key list -/
+def insertByKey (b : Block) : List Block → List Block
+  | [] => [b]
+  | c :: cs => if b.key ≤ c.key then b :: c :: cs else c :: insertByKey b cs
+
+def sortBlocks (bs : List Block) : List Block := bs.foldl (fun acc b => insertByKey b acc) []
+
+/-- unit row `e_i` of length `npar` -/
+def unitRow (npar i : Nat) : List Rat := (List.range npar).map (fun j => if j == i then 1 else 0)
+
+/-- design matrix, weights (inverse squared errors; prior rows with `1/dp²`) and data vector of an uncorrelated fit
+    with priors `(parameter index, value, width)` -/
+def assemble (bs : List Block) (npar : Nat) (priors : List (Nat × Rat × Rat)) : Mat × Mat × List Rat :=
+  let s := sortBlocks bs
+  let A := s.flatMap (·.rows) ++ priors.map (fun p => unitRow npar p.1)
+  let y := s.flatMap (·.y) ++ priors.map (fun p => p.2.1)
+  let w := (s.flatMap (·.dy)).map (fun e => 1 / (e * e)) ++ priors.map (fun p => 1 / (p.2.2 * p.2.2))
+  (A, diag w, y)
+
+/-- the fit: assemble, then the checked closed form -/
+def fitLinear (bs : List Block) (npar : Nat) (priors : List (Nat × Rat × Rat)) : Option (List Rat × Mat × Rat) :=
+  let (A, W, y) := assemble bs npar priors
+  match gls A W y with
+  | none => none
+  | some (p, S) => some (p, S, chisq A W y p)
+
+end PV.Gls
